@@ -80,8 +80,8 @@ def r2_tag_layout(r, facts):
         v = facts.const('io_uring::cq::' + n)
         r.inst('%s=%d' % (n, v))
         r.require(0 <= v <= 3, 'reserved:%s' % n, 'reserved user_data %s=%d is not below the minimum state alignment' % (n, v))
-    css = const_switches(f, 'OpResult>::IS_MULTISHOT')
-    r.require(len(css) >= 1, 'user_data/switch', 'user_data does not select the tag by IS_MULTISHOT', f.where())
+    # (by value under both settings of IS_MULTISHOT: an `if`, an associated constant or a lookup table alike)
+    from .kernel import eval_int
     for val, want in ((True, multi), (False, single)):
         g = specialise(f, 'OpResult>::IS_MULTISHOT', val)
         eg = ExprBuilder(g, multi='phi')
@@ -90,8 +90,7 @@ def r2_tag_layout(r, facts):
         for e in rets:
             ors = [x for x in subexprs(e) if x[0] == 'bin' and x[1] == 'BitOr']
             for o in ors:
-                tags = [y for y in (o[2], o[3]) if y[0] == 'const' or (y[0] == 'cast' and y[4][0] == 'const')]
-                tagv = [(y[1] if y[0] == 'const' else y[4][1]) for y in tags]
+                tagv = [v_ for v_ in (eval_int(g, eg, y) for y in (o[2], o[3])) if v_ is not None]
                 addr = [y for y in subexprs(o) if y[0] == 'call' and y[1].endswith('expose_provenance')]
                 if addr and tagv == [want] and fam.last_field(addr[0][2][0]) == 'data':
                     ok = True
@@ -366,13 +365,14 @@ def r6b_value_flow(r, facts):
     r.require(len(ups) == 1, 'Shared::update/store', 'expected one results.update(..) in Shared::update', u.where())
     for loc, t in ups:
         cr = eu.operand(t['args'][1])
-        fl = eu.operand(t['args'][2])
+        # (the completion flags may be passed next to the result or only inside it)
+        fl = eu.operand(t['args'][2]) if len(t['args']) > 2 else None
         ok = cr[0] == 'agg' and cr[1].endswith('CompletionResult::CompletionResult')
         if ok:
             m = dict(zip(cr[2], cr[3]))
             okr = fam.last_field(m.get('result', ('x',))) == 'res' and access_path(m['result'])[0][0] == 'arg'
             okf = any(fam.last_field(x) == 'flags' for x in subexprs(m.get('flags', ('x',))))
-            ok = okr and okf and fam.last_field(fl) == 'flags'
+            ok = okr and okf and (fl is None or fam.last_field(fl) == 'flags')
         r.inst('update stores CompletionResult{result: cqe.res, flags: cqe.flags}', u.where(loc))
         r.require(ok, 'Shared::update/store-fields', 'the stored result is not (res, flags) of the completion being processed: %s' % (cr,), u.where(loc))
     r.floor(3)
